@@ -1,4 +1,296 @@
+// SLAAC state machine harnesses: C13 (poll_at vs. what a poll would do).
+// Spliced into src/iface/slaac.rs: private fields of `Slaac`, `Phase`, `PrefixInfo`, `Route` reachable.
+//
+// What `Interface::poll(t)` does with a `Slaac` (src/iface/interface/mod.rs, ipv6.rs), in this order:
+//   maintenance: if slaac.sync_required(t) { sync_slaac_state(t) -> slaac.update_slaac_state(t) }
+//   ingress:     every accepted router advertisement -> slaac.process_advertisement(.., t)
+//   egress:      if slaac.rs_required(t) { transmit RS; slaac.rs_sent(t) }       (ndisc_rs_egress)
+// `Interface::poll_at(t)` takes `slaac.poll_at(t)` as the SLAAC deadline.
+//
+// INV(t0) = representation invariant of a `Slaac` left behind by a poll at t0 (all instants >= 0):
+//   S1  num_solicitations <= MAX_RTR_SOLICITATIONS          (starts at MAX; rs_sent only decrements while > 0)
+//   S2  phase == Start  =>  num_solicitations == MAX and retry_rs_at == 0          (new(); Start is never re-entered)
+//   S3  phase in {Discovering, Maintaining}  =>  num_solicitations < MAX and 4 s <= retry_rs_at <= t0 + 4 s
+//                                                           (Start is left only by rs_sent(t), t <= t0, which sets t + 4 s)
+//   S4  phase != None     (rs_sent enters None only with num_solicitations == 0, but its only caller, ndisc_rs_egress,
+//                          calls it only after rs_required(), which needs num_solicitations > 0)
+//   S5  every stored prefix / route has valid_until > t0, or valid_until == 0 and the `sync_required` flag is set
+//                                                           (update_slaac_state(t0) drops everything <= t0 and clears the flag;
+//                                                            afterwards process_advertisement(t0) stores t0 + lifetime with
+//                                                            lifetime > 0, or zeroes valid_until and sets the flag)
+// `slaac_poll_step` proves INV inductive over the three poll phases (labels `inv:`); the other
+// harnesses start from an arbitrary INV(t0) state.
 #[allow(dead_code, unused_imports, unused_variables, unused_mut)]
 mod v_iface_slaac {
     use super::*;
+
+    // All instants are symbolic *microsecond* counts (the resolution of `Instant`): no multiplication
+    // stands between the solver and the comparisons that matter.
+    const T_MAX: i64 = 1i64 << 50;
+    /// lifetimes in advertisements are 32-bit second counts
+    const LIFE_MAX: i64 = 0xffff_ffffi64 * 1_000_000;
+    /// RTR_SOLICITATION_INTERVAL in microseconds
+    const RSI: i64 = 4_000_000;
+
+    const ROUTER_A: Ipv6Address = Ipv6Address::new(0xfe80, 0, 0, 0, 0, 0, 0, 0xa);
+    const ROUTER_B: Ipv6Address = Ipv6Address::new(0xfe80, 0, 0, 0, 0, 0, 0, 0xb);
+    const PREFIX_1: Ipv6Address = Ipv6Address::new(0x2001, 0xdb8, 0, 1, 0, 0, 0, 0);
+    const PREFIX_2: Ipv6Address = Ipv6Address::new(0x2001, 0xdb8, 0, 2, 0, 0, 0, 0);
+
+    fn us(t: i64) -> Instant {
+        Instant::from_micros(t)
+    }
+
+    fn any_us(lo: i64, hi: i64) -> i64 {
+        let t: i64 = kani::any();
+        kani::assume(t >= lo && t <= hi);
+        t
+    }
+
+    fn any_router() -> Ipv6Address {
+        if kani::any() { ROUTER_A } else { ROUTER_B }
+    }
+
+    fn any_prefix() -> Ipv6Address {
+        if kani::any() { PREFIX_1 } else { PREFIX_2 }
+    }
+
+    /// S5 for one stored lifetime
+    fn any_valid_until(t0: i64, flag: bool) -> i64 {
+        let v = any_us(0, T_MAX + LIFE_MAX);
+        kani::assume(v > t0 || (v == 0 && flag));
+        v
+    }
+
+    /// arbitrary `Slaac` satisfying INV(t0) with the given `sync_required` flag
+    fn any_slaac(t0: i64, flag: bool) -> Slaac {
+        let mut s = Slaac::new();
+        let ph: u8 = kani::any();
+        let num: u8 = kani::any();
+        kani::assume(num <= MAX_RTR_SOLICITATIONS); // S1
+        match ph {
+            0 => {
+                // S2
+                kani::assume(num == MAX_RTR_SOLICITATIONS);
+                s.phase = Phase::Start;
+                s.retry_rs_at = us(0);
+            }
+            _ => {
+                // S3, S4
+                kani::assume(num < MAX_RTR_SOLICITATIONS);
+                s.phase = if ph == 1 { Phase::Discovering } else { Phase::Maintaining };
+                s.retry_rs_at = us(any_us(RSI, t0 + RSI));
+            }
+        }
+        s.num_solicitations = num;
+        s.sync_required = flag;
+        // S5: 0..=1 prefixes (IFACE_MAX_PREFIX_COUNT), 0..=2 routes (IFACE_MAX_ROUTE_COUNT), symbolic lifetimes
+        if kani::any() {
+            let valid = any_valid_until(t0, flag);
+            let pref = any_us(0, T_MAX + LIFE_MAX);
+            let _ = s.prefix.insert(Ipv6Cidr::new(any_prefix(), 64), PrefixInfo::new(us(pref), us(valid)));
+        }
+        let nr: u8 = kani::any();
+        if nr >= 1 {
+            let _ = s.routes.push(Route { cidr: IPV6_DEFAULT, via_router: ROUTER_A, valid_until: us(any_valid_until(t0, flag)) });
+        }
+        if nr >= 2 && IFACE_MAX_ROUTE_COUNT >= 2 {
+            let _ = s.routes.push(Route { cidr: IPV6_DEFAULT, via_router: ROUTER_B, valid_until: us(any_valid_until(t0, flag)) });
+        }
+        s
+    }
+
+    fn dump(tag: &str, s: &Slaac, t: i64) {
+        crate::vdump!("{} t={} us: {:?}", tag, t, s);
+    }
+
+    /// INV(t0), clause by clause (labels `inv:`)
+    fn assert_inv(s: &Slaac, t0: i64) {
+        assert!(s.num_solicitations <= MAX_RTR_SOLICITATIONS, "inv:S1_solicitation_budget");
+        match s.phase {
+            Phase::Start => {
+                assert!(s.num_solicitations == MAX_RTR_SOLICITATIONS && s.retry_rs_at == us(0), "inv:S2_start_is_pristine");
+            }
+            Phase::Discovering | Phase::Maintaining => {
+                assert!(s.num_solicitations < MAX_RTR_SOLICITATIONS, "inv:S3_solicited_at_least_once");
+                assert!(s.retry_rs_at >= us(RSI) && s.retry_rs_at <= us(t0 + RSI), "inv:S3_retry_is_last_rs_plus_interval");
+            }
+            Phase::None => assert!(false, "inv:S4_phase_none_unreachable"),
+        }
+        // S5, by symbolic index
+        if s.prefix.len() > 0 {
+            let info = s.prefix.values().next().unwrap();
+            assert!(info.valid_until > us(t0) || (info.valid_until == us(0) && s.sync_required), "inv:S5_prefix_lifetimes");
+        }
+        let k: usize = kani::any();
+        if k < s.routes.len() {
+            let r = &s.routes[k];
+            assert!(r.valid_until > us(t0) || (r.valid_until == us(0) && s.sync_required), "inv:S5_route_lifetimes");
+        }
+    }
+
+    /// `t` is strictly before the deadline `d` (None = no deadline)
+    fn before(t: i64, d: Option<Instant>) -> bool {
+        match d {
+            None => true,
+            Some(x) => us(t) < x,
+        }
+    }
+
+    /// what a poll at `t` would do with this state
+    fn work_due(s: &Slaac, t: i64) -> bool {
+        s.rs_required(us(t)) || s.sync_required(us(t))
+    }
+
+    // ------------------------------------------------------------------ poll_at vs rs_required / sync_required
+    // State left by a poll at t0 that processed no router advertisement (flag clear, nothing expired yet).
+    // @harness props=C13 cfg=KI6 tier=q to=300 mem=4 unwind=18 opts=nomem covers=5 funcs=Slaac::poll_at;Slaac::rs_required;Slaac::sync_required bounds=every_INV_state:_phase_Start/Discovering/Maintaining,_0..=3_solicitations_left,_0..=1_prefixes_(crate_default_capacity),_0..=2_routes,_lifetimes_any_value_up_to_2^32_s;_poll_instant_<2^50_us;_probe_instant_anywhere_from_the_poll_instant_on
+    #[kani::proof]
+    pub(crate) fn slaac_poll_vs_rs() {
+        let t0 = any_us(0, T_MAX);
+        let s = any_slaac(t0, false);
+        dump("STATE", &s, t0);
+        let d = s.poll_at(us(t0));
+        crate::vdump!("poll_at({}) = {:?}; rs_required={} sync_required={}", t0, d, s.rs_required(us(t0)), s.sync_required(us(t0)));
+
+        let t = any_us(t0, T_MAX + 2 * LIFE_MAX);
+        // (witnesses first: a failing assertion cuts off the paths behind it)
+        kani::cover!(s.phase == Phase::Discovering && before(t, d) && t > t0, "waiting for the solicitation interval");
+        kani::cover!(s.phase == Phase::Maintaining && d.is_some() && s.routes.len() == 2 && s.prefix.len() == 1, "maintaining: earliest of three lifetimes");
+        kani::cover!(s.phase == Phase::Maintaining && d.is_none(), "maintaining with nothing stored: no deadline");
+        kani::cover!(s.phase == Phase::Discovering && s.num_solicitations == 0, "solicitations exhausted");
+        kani::cover!(s.phase == Phase::Start && s.rs_required(us(t0)), "first solicitation due");
+
+        // ---- non-spinning: nothing to do at t0  =>  no deadline, or one strictly later than t0
+        if !work_due(&s, t0) {
+            assert!(before(t0, d), "prop:c13_slaac_idle_poll_leaves_future_deadline");
+        }
+        // ---- not earlier: at every instant from t0 up to (excluding) the deadline a poll would do nothing
+        if before(t, d) {
+            assert!(!s.rs_required(us(t)), "prop:c13_slaac_no_rs_due_before_poll_at");
+            assert!(!s.sync_required(us(t)), "prop:c13_slaac_no_expiry_due_before_poll_at");
+        }
+    }
+
+    // State left by a poll at t0 whose ingress processed a router advertisement after maintenance had
+    // run (flag set): the new prefix/route still has to be copied to the interface by a later poll.
+    // @harness props=C13 cfg=KI6 tier=q to=300 mem=4 unwind=18 opts=nomem covers=2 funcs=Slaac::poll_at;Slaac::sync_required;Slaac::has_ra_update bounds=every_INV_state_with_the_sync_flag_set;_same_bounds_as_slaac_poll_vs_rs
+    #[kani::proof]
+    pub(crate) fn slaac_poll_after_ra() {
+        let t0 = any_us(0, T_MAX);
+        let s = any_slaac(t0, true);
+        // an advertisement has been processed: Discovering was left (process_advertisement), something was stored or zeroed
+        kani::assume(s.phase != Phase::Discovering);
+        dump("STATE", &s, t0);
+        let d = s.poll_at(us(t0));
+        crate::vdump!("poll_at({}) = {:?}; has_ra_update={}", t0, d, s.has_ra_update());
+        kani::cover!(s.phase == Phase::Maintaining && s.prefix.len() == 1 && d.is_some(), "new prefix waiting to be configured");
+        kani::cover!(s.phase == Phase::Start, "unsolicited advertisement before the first solicitation");
+        assert!(s.sync_required(us(t0)), "prop:c13_slaac_ra_update_is_pending_work");
+        // the pending synchronisation is scheduled: the deadline is not later than the poll that produced it
+        assert!(!before(t0, d), "prop:c13_slaac_ra_update_scheduled_by_poll_at");
+    }
+
+    // ------------------------------------------------------------------ INV is inductive over one poll; history base case
+    // @harness props=C13 cfg=KI6 tier=q to=600 mem=6 unwind=18 opts=nomem covers=4 funcs=Slaac::update_slaac_state;Slaac::process_advertisement;Slaac::rs_required;Slaac::rs_sent;Slaac::new bounds=one_poll_=_maintenance,_0..=2_router_advertisements_(2_routers,_2_prefixes,_any_lifetimes),_solicitation;_pre-state_any_INV_state_or_new()
+    #[kani::proof]
+    pub(crate) fn slaac_poll_step() {
+        let tp = any_us(0, T_MAX);
+        let t0 = any_us(tp, T_MAX);
+        let fresh: bool = kani::any();
+        let mut s = if fresh { Slaac::new() } else { any_slaac(tp, kani::any()) };
+        if fresh {
+            assert_inv(&s, tp);
+        }
+        dump("PRE", &s, tp);
+        // maintenance
+        if s.sync_required(us(t0)) {
+            s.update_slaac_state(us(t0));
+        }
+        assert!(!s.sync_required(us(t0)), "inv:S5_maintenance_leaves_nothing_to_sync");
+        // ingress: the interface forwards advertisements only when SLAAC is enabled
+        let n_ra: u8 = kani::any();
+        let mut i = 0;
+        while i < 2 {
+            if i < n_ra {
+                let src = any_router();
+                let life = Duration::from_micros(any_us(0, LIFE_MAX) as u64);
+                let pi = if kani::any() {
+                    let v = any_us(0, LIFE_MAX) as u64;
+                    let p = any_us(0, LIFE_MAX) as u64;
+                    let fl: u8 = kani::any();
+                    Some(NdiscPrefixInformation {
+                        prefix_len: if kani::any() { 64 } else { 48 },
+                        flags: NdiscPrefixInfoFlags::from_bits_truncate(fl),
+                        valid_lifetime: Duration::from_micros(v),
+                        preferred_lifetime: Duration::from_micros(p),
+                        prefix: any_prefix(),
+                    })
+                } else {
+                    None
+                };
+                s.process_advertisement(&src, life, pi, us(t0));
+            }
+            i += 1;
+        }
+        // egress on a device that accepts frames
+        let rs = s.rs_required(us(t0));
+        if rs {
+            s.rs_sent(us(t0));
+        }
+        dump("POST", &s, t0);
+        assert_inv(&s, t0);
+        assert!(!s.rs_required(us(t0)), "prop:c13_slaac_one_solicitation_per_poll");
+        if rs {
+            assert!(s.poll_at(us(t0)) == Some(us(t0 + RSI)) || s.phase == Phase::Maintaining, "prop:c13_slaac_next_solicitation_after_interval");
+        }
+        kani::cover!(fresh && rs && n_ra == 0, "first solicitation of a new interface");
+        kani::cover!(!fresh && rs && s.num_solicitations == 0, "last solicitation sent");
+        kani::cover!(n_ra == 2 && s.routes.len() == 2 && s.prefix.len() == 1 && s.phase == Phase::Maintaining, "two routers and a prefix learnt");
+        kani::cover!(!fresh && n_ra == 1 && s.sync_required && s.routes.len() == 1 && s.routes[0].valid_until == us(0), "advertisement with zero router lifetime");
+    }
+
+    // The exhausted-solicitation state is reached by the interface's own call sequence: new(), then
+    // MAX_RTR_SOLICITATIONS times { rs_required -> rs_sent } at increasing instants, no advertisement.
+    // @harness props=C13 cfg=KI6 tier=q to=300 mem=4 unwind=18 opts=nomem covers=2 funcs=Slaac::new;Slaac::rs_required;Slaac::rs_sent;Slaac::poll_at;Slaac::sync_required bounds=history:_new()_then_3_solicitations_at_symbolic_instants_(each_at_or_after_its_deadline),_no_router_answers;_then_poll_at_probed_at_any_later_instant
+    #[kani::proof]
+    pub(crate) fn slaac_unanswered_history() {
+        let mut s = Slaac::new();
+        let mut t = any_us(0, T_MAX);
+        let mut i = 0u8;
+        while i < MAX_RTR_SOLICITATIONS {
+            // the event loop sleeps until poll_at and polls (possibly late)
+            let d = s.poll_at(us(t)).unwrap();
+            let t_next = any_us(t, T_MAX);
+            kani::assume(us(t_next) >= d);
+            t = t_next;
+            assert!(s.rs_required(us(t)), "prop:c13_slaac_solicitation_due_at_deadline");
+            s.rs_sent(us(t));
+            // after each poll that transmitted: deadline exactly one interval ahead
+            assert!(s.poll_at(us(t)) == Some(us(t + RSI)), "prop:c13_slaac_next_solicitation_after_interval");
+            i += 1;
+        }
+        assert!(s.phase == Phase::Discovering && s.num_solicitations == 0, "prop:c13_slaac_budget_spent_after_max_solicitations");
+        assert_inv(&s, t);
+        // the loop sleeps until the advertised deadline and polls: nothing is due any more ...
+        let d = s.poll_at(us(t)).unwrap();
+        let tq = any_us(t, T_MAX + RSI);
+        kani::assume(us(tq) >= d);
+        dump("EXHAUSTED", &s, tq);
+        assert!(!work_due(&s, tq), "prop:c13_slaac_nothing_due_after_last_solicitation");
+        // ... so the next deadline must lie strictly ahead (or be absent)
+        let d2 = s.poll_at(us(tq));
+        crate::vdump!("poll_at({}) = {:?}", tq, d2);
+        kani::cover!(tq > t + RSI, "polled after the last interval expired");
+        kani::cover!(s.retry_rs_at == us(3 * RSI), "three solicitations back to back from t=0");
+        assert!(before(tq, d2), "prop:c13_slaac_idle_poll_leaves_future_deadline");
+    }
+
+    // @harness props=C13 kind=mustfail cfg=KI6 tier=q to=300 mem=4 unwind=18 opts=nomem
+    #[kani::proof]
+    pub(crate) fn slaac_must_fail() {
+        let t0 = any_us(0, T_MAX);
+        let s = any_slaac(t0, false);
+        assert!(s.poll_at(us(t0)).is_none(), "prop:deliberately_false_slaac_never_has_a_deadline");
+    }
 }
